@@ -15,7 +15,7 @@ RULE = ('Each case has three parts. (a) TWIN WORLDS: a generated history (create
         'delete_now / process / add_processor / remove_processor) is applied to two fresh worlds with mirrored '
         'component pairs, a Controller subclass carrying ComponentReference / ProcessorReference descriptors is '
         'attached to a generated entity (variants: attached controller, bare desper.controller(entity, world), '
-        'a plain ControllerProtocol object); then one shorthand (add_component, remove_component, has_component, '
+        'a plain ControllerProtocol object; the attached controller instance may have had a previous life in another world under an equal entity id, or under another entity of the same world); then one shorthand (add_component, remove_component, has_component, '
         'get_component, get_components, delete, reference get/set/del for components and processors) is used '
         'through the controller on world A and the corresponding World call on world B: results, exception '
         'types and the complete observable state of both worlds must correspond. (b) PROTOTYPES built with '
@@ -139,7 +139,7 @@ def strategy():
     twin = st.fixed_dictionaries({
         'ops': worldops.chunked(op, 24), 'ctl_entity': st.integers(0, 15), 'variant': st.integers(0, 2),
         'shorthand': st.integers(0, len(SHORTHANDS) - 1), 'type': st.integers(0, 4), 'after': st.integers(0, 2),
-        'valmode': st.integers(0, 2)})
+        'valmode': st.integers(0, 2), 'prelife': st.integers(0, 2)})
     proto = st.fixed_dictionaries({
         'types': st.lists(st.integers(0, 5), min_size=1, max_size=5),
         'sources': st.lists(st.integers(0, 3), min_size=6, max_size=6),
@@ -237,6 +237,21 @@ def twin_part(spec, facts):
     variant = spec['variant']
     ctlA, ctlB = Ctl(), Ctl()
     if variant == 0:
+        prelife = spec.get('prelife', 0)
+        if prelife:
+            # the controller instance had a previous life: attached (and detached again) in ANOTHER world under
+            # an entity id equal to the one it gets now, or in the same world under another entity
+            for side, ctl in ((A, ctlA), (B, ctlB)):
+                if prelife == 1:
+                    other = desper.World()
+                    other.create_entity(ctl, entity_id=ent)
+                    if ctl.entity != ent or ctl.world is not other:
+                        viol('attached_controller_knows_its_entity_and_world', where='previous life')
+                    other.remove_component(ent, Ctl)
+                else:
+                    e0 = side.world.create_entity(ctl)
+                    side.world.remove_component(e0, Ctl)
+            facts['controller_with_a_previous_life_%d' % prelife] += 1
         A.world.add_component(ent, ctlA)
         B.world.add_component(B.ids[k], ctlB)
         if ctlA.entity != ent or ctlA.world is not A.world:
